@@ -87,7 +87,7 @@ theorem nodup_map_inj {β : Type} (f : β → Str) (l : List β) (hn : (l.map f)
 
 theorem endsWithPb2_append (s : Str) : endsWithPb2 (s ++ ['_', 'p', 'b', '2']) = true := by
   unfold endsWithPb2
-  rw [show "_pb2".toList = ['_', 'p', 'b', '2'] from by decide, List.isSuffixOf_iff_suffix]
+  rw [List.isSuffixOf_iff_suffix]
   exact List.suffix_append _ _
 
 end Aux
@@ -155,7 +155,7 @@ structure WF (T : Tables) (svc : Service) : Prop where
   /-- snake-cased client method names are pairwise distinct -/
   attrs : (svc.methods.map (clientAttr T)).Nodup
   /-- no stub property is shadowed by a member defined later in the transport class body -/
-  later : ∀ m ∈ svc.methods, stubKey T m ≠ "close".toList ∧ stubKey T m ≠ "kind".toList ∧
+  later : ∀ m ∈ svc.methods, stubKey T m ≠ ['c', 'l', 'o', 's', 'e'] ∧ stubKey T m ≠ ['k', 'i', 'n', 'd'] ∧
             stubKey T m ∉ svc.mixins.map snake
   /-- no proto file of a request/response type is itself named `*_pb2.proto` -/
   modules : ∀ m ∈ svc.methods, endsWithPb2 m.input.module = false ∧ endsWithPb2 m.output.module = false
@@ -247,34 +247,20 @@ def equivMsg {μ δ : Type} (ops : MsgOps μ δ) : Arg μ δ → μ
   | .inst x => x
   | .iter _ => ops.empty
 
-/-- request type in the method's own package: instance, dict and omitted are equivalent, no hypothesis -/
-theorem coerce_same_package {μ δ : Type} (ops : MsgOps μ δ) (a : Arg μ δ) :
-    coerce ops false a = equivMsg ops a := by
+/-- **instance ≡ dict ≡ omitted**, for a request type of the method's own package and of any other
+package alike, with NO hypothesis on the message class (since fix 59b2075 `elif request is None:`;
+before it a falsy instance of another package's proto-plus class was replaced by `T()`). -/
+theorem coerce_equiv {μ δ : Type} (ops : MsgOps μ δ) (dp : Bool) (a : Arg μ δ) :
+    coerce ops dp a = equivMsg ops a := by
   cases a <;> simp [coerce, equivMsg]
 
-/-- **instance ≡ dict ≡ omitted** also for a request type of another package, PROVIDED a falsy
-instance equals the empty message (true of protobuf classes, which are falsy only via `__len__`
-of an empty Struct/ListValue; false of proto-plus classes with explicit presence). -/
-theorem coerce_equiv {μ δ : Type} (ops : MsgOps μ δ) (dp : Bool)
-    (hfalsy : ∀ x, ops.truthy x = false → x = ops.empty) (a : Arg μ δ) :
-    coerce ops dp a = equivMsg ops a := by
-  cases a with
-  | inst x =>
-    cases dp
-    · simp [coerce, equivMsg]
-    · cases ht : ops.truthy x
-      · simp [coerce, equivMsg, hfalsy x ht]
-      · simp [coerce, equivMsg, ht]
-  | _ => simp [coerce, equivMsg]
-
-/-- a proto-plus message from a `proto-plus-deps` package with an explicitly set default value
-(`optional int32 n = 0`): `bool(request)` is False, `elif not request:` replaces it by `T()`.
+/-- regression for the repaired defect: a message with an explicitly present default value
+(`optional int32 n = 0`, falsy for proto-plus) is sent as given, as instance and as dict.
 Messages are modelled as the list of (field number, value) pairs that are PRESENT. -/
-theorem coerce_falsy_instance_counterexample :
-    let ops : MsgOps (List (Nat × Int)) (List (Nat × Int)) :=
-      { empty := [], ofDict := id, truthy := fun m => m.any (fun p => p.2 != 0) }
-    coerce ops true (.inst [(2, 0)]) = [] ∧ coerce ops true (.dict [(2, 0)]) = [(2, 0)] ∧
-    equivMsg ops (.inst [(2, 0)]) = [(2, 0)] := by decide
+theorem coerce_falsy_instance_regression :
+    let ops : MsgOps (List (Nat × Int)) (List (Nat × Int)) := { empty := [], ofDict := id }
+    coerce ops true (.inst [(2, 0)]) = [(2, 0)] ∧ coerce ops true (.dict [(2, 0)]) = [(2, 0)] ∧
+    coerce ops true .omitted = [] := by decide
 
 /-! ## Return value -/
 
@@ -316,7 +302,6 @@ server-streaming RPC and the single reply otherwise. -/
 theorem call_reaches_rpc {μ δ ρ : Type} (T : Tables) (n : Naming) (ops : MsgOps μ δ) (fl : Flavor)
     (svc : Service) (wf : WF T svc) (m : Method) (hm : m ∈ svc.methods)
     (arg : Arg μ δ) (hfit : ArgFits m arg)
-    (hfalsy : ∀ x, ops.truthy x = false → x = ops.empty)
     (hissued : ¬ (fl = .async ∧ isVoid m = true ∧ (m.serverStreaming = true ∨ m.clientStreaming = true)))
     (replies : List ρ) :
     runCall T n ops fl svc m arg replies =
@@ -335,13 +320,13 @@ theorem call_reaches_rpc {μ δ ρ : Type} (T : Tables) (n : Naming) (ops : MsgO
     simp [hcs, hi, sentSpec, ← hp, mkStub]
   | omitted =>
     have hcs : m.clientStreaming = false := hfit
-    simp [hcs, hi, sentSpec, ← hp, mkStub, coerce_equiv ops _ hfalsy]
+    simp [hcs, hi, sentSpec, ← hp, mkStub, coerce_equiv ops _]
   | dict d =>
     have hcs : m.clientStreaming = false := hfit
-    simp [hcs, hi, sentSpec, ← hp, mkStub, coerce_equiv ops _ hfalsy]
+    simp [hcs, hi, sentSpec, ← hp, mkStub, coerce_equiv ops _]
   | inst x =>
     have hcs : m.clientStreaming = false := hfit
-    simp [hcs, hi, sentSpec, ← hp, mkStub, coerce_equiv ops _ hfalsy]
+    simp [hcs, hi, sentSpec, ← hp, mkStub, coerce_equiv ops _]
 
 /-- sync and asyncio clients are observationally equal wherever the asyncio call is issued -/
 theorem sync_async_agree {μ δ ρ : Type} (T : Tables) (n : Naming) (ops : MsgOps μ δ)
@@ -360,9 +345,9 @@ theorem sync_async_agree {μ δ ρ : Type} (T : Tables) (n : Naming) (ops : MsgO
 /-- the three transport-unsafe names get a suffix and no longer shadow the members defined
 before the stubs; the keyword names get one on both the client and the transport -/
 theorem unsafe_names_suffixed :
-    ∀ w ∈ ["CreateChannel", "GrpcChannel", "OperationsClient"],
+    ∀ w ∈ ["CreateChannel", "GrpcChannel", "OperationsClient", "Close", "Kind", "CLOSE", "kind"],
       snake (transportSafeName pinnedTables w.toList) ∉
-        ["create_channel".toList, "grpc_channel".toList, "operations_client".toList] ∧
+        ["create_channel".toList, "grpc_channel".toList, "operations_client".toList, "close".toList, "kind".toList] ∧
       clientMethodName pinnedTables w.toList = w.toList := by decide
 
 theorem keyword_names_suffixed :
@@ -384,18 +369,30 @@ def emptyA : Addr := { package := ["google".toList, "protobuf".toList], module :
 def meth (name : String) (out : Addr := local_ "Book") (cs ss : Bool := false) : Method :=
   { name := name.toList, input := local_ "Req", output := out, clientStreaming := cs, serverStreaming := ss }
 def svcOf (ms : List Method) : Service := { package := pkg, name := "Library".toList, methods := ms }
-def natOps : MsgOps Nat Nat := { empty := 0, ofDict := id, truthy := fun x => x != 0 }
+def natOps : MsgOps Nat Nat := { empty := 0, ofDict := id }
 
-/-- an RPC named `Close`: `def close(self)` comes later in the class body, the wrapped "stub" is
-the bound method `close`, the call raises TypeError and nothing is sent. -/
-theorem close_rpc_counterexample :
+/-- regression (fix 4266af3): an RPC named `Close` — `close` is now a transport-unsafe name, the stub
+property is `close_` and is no longer shadowed by `def close(self)`; the call reaches `/…/Close`. -/
+theorem close_rpc_regression :
     runCall (ρ := Nat) pinnedTables nm natOps .sync (svcOf [meth "GetBook", meth "Close"]) (meth "Close") (.inst 7) [1]
-      = .error .typeError := by decide
+      = .ok { calls := [⟨"/acme.lib.v1.Library/Close".toList, "unary_unary".toList, [7]⟩], ret := .value 1 } ∧
+    stubKey pinnedTables (meth "Close") = "close_".toList ∧ clientAttr pinnedTables (meth "Close") = "close".toList := by decide
 
-/-- an RPC named `Kind`: `self.kind` is the string "grpc"; `_prep_wrapped_messages` raises, the
-transport cannot be constructed, NO method of the service can be called. -/
-theorem kind_rpc_counterexample :
-    runCall (ρ := Nat) pinnedTables nm natOps .sync (svcOf [meth "GetBook", meth "Kind"]) (meth "GetBook") (.inst 7) [1]
+/-- regression (fix 4266af3): an RPC named `Kind` — the transport can be constructed and every
+RPC of the service, `Kind` included, is callable. -/
+theorem kind_rpc_regression :
+    runCall (ρ := Nat) pinnedTables nm natOps .async (svcOf [meth "GetBook", meth "Kind"]) (meth "GetBook") (.inst 7) [1]
+      = .ok { calls := [⟨"/acme.lib.v1.Library/GetBook".toList, "unary_unary".toList, [7]⟩], ret := .value 1 } ∧
+    runCall (ρ := Nat) pinnedTables nm natOps .sync (svcOf [meth "GetBook", meth "Kind"]) (meth "Kind") (.dict 7) [1]
+      = .ok { calls := [⟨"/acme.lib.v1.Library/Kind".toList, "unary_unary".toList, [7]⟩], ret := .value 1 } := by decide
+
+/-- what the table was before the fix: `Close` is shadowed (TypeError), `Kind` breaks construction.
+Kept as the reason why `WF.later` is a hypothesis of the composite theorem. -/
+theorem shadowed_stub_counterexample :
+    let T0 : Tables := { pinnedTables with unsafeExtra := [] }
+    runCall (ρ := Nat) T0 nm natOps .sync (svcOf [meth "GetBook", meth "Close"]) (meth "Close") (.inst 7) [1]
+      = .error .typeError ∧
+    runCall (ρ := Nat) T0 nm natOps .sync (svcOf [meth "GetBook", meth "Kind"]) (meth "GetBook") (.inst 7) [1]
       = .error .attributeError := by decide
 
 /-- two RPCs with one snake-case form: the client method of `GetBook` calls `/…/Get_book`. -/
@@ -446,9 +443,6 @@ example : stubKey pinnedTables (meth "Import") = "import_".toList ∧
 
 /-- `serializer_consistent` is used with both outcomes -/
 example : templCodec nm (local_ "Book") = .plus ∧ templCodec nm emptyA = .pb2 := by decide
-
-/-- `coerce_equiv`'s hypothesis holds for a class that is never falsy (protobuf messages) -/
-example : ∀ x : Nat, (fun _ : Nat => true) x = false → x = 0 := by intro x h; simp at h
 
 /-- `hissued` and `ArgFits` are satisfiable together with a client-streaming method -/
 example : ArgFits (μ := Nat) (δ := Nat) (meth "Chat" (local_ "Book") true true) (.iter [1, 2]) := rfl
